@@ -27,7 +27,12 @@ class Unsupported(Inconclusive):
 
 
 class PathAbort(BaseException):
-    """Path is infeasible or cut by an assumption. BaseException on purpose."""
+    """Path is infeasible or cut by an assumption. BaseException on purpose.
+    reason 'assume' = cut by a counted assumption; anything else is unexpected (a replayed prefix was
+    found feasible when it was created) and is reported."""
+
+    def __init__(self, reason="infeasible"):
+        self.reason = reason
 
 
 class HarnessError(BaseException):
@@ -56,12 +61,19 @@ class Engine:
         self.in_merge = 0
         self.no_fork = 0
         self.assume_counts = {}
+        self.merge_cache = {}
+        self.merge_applied = set()
+        self.nmerge_bind = 0
+        self.decided = {}
+        self.iv = {}
+        self.bind_log = []
 
     def reset_stats(self):
         self.n_queries = 0
         self.t_solver = 0.0
         self.n_paths = 0
         self.n_static = 0
+        self.n_unexpected_aborts = 0
 
     # ---- path lifecycle
     def start_path(self, prefix):
@@ -72,6 +84,10 @@ class Engine:
         self.model = None
         self.nbind = 0
         self.nfresh = 0
+        self.iv = {}
+        self.bind_log = []
+        self.nmerge = 0
+        self.decided = {}
         self.lits = None
         self.in_merge = 0
         self.no_fork = 0
@@ -90,6 +106,8 @@ class Engine:
         return (True, self.solver.model()) if r == z3.sat else (False, None)
 
     def add(self, cond):
+        if self.in_merge:
+            raise Unsupported("non-definitional constraint inside a merged (pure) function")
         self.solver.add(cond)
         self.model = None
 
@@ -102,8 +120,8 @@ class Engine:
             self.solver.add(v <= hi)
         return v
 
-    def bind(self, expr):
-        """let-bind a (large) term to a fresh variable."""
+    def bind(self, expr, lo=None, hi=None):
+        """let-bind a (large) term to a fresh variable; [lo, hi] (if known) is remembered for the variable."""
         if not z3.is_expr(expr):
             return expr
         expr = z3.simplify(expr)
@@ -111,9 +129,18 @@ class Engine:
             return expr
         self.nbind += 1
         v = z3.BitVec(f"_t{self.nbind}", W)
-        self.solver.add(v == expr)
+        d = v == expr
+        self.solver.add(d)
+        self.bind_log.append((d, v, lo, hi))
         self.model = None
+        if lo is not None:
+            self.iv[v.get_id()] = (lo, hi, v)
         return v
+
+    def interval(self, z, default):
+        """static interval remembered for a term (input variable or let-bound variable)"""
+        r = self.iv.get(z.get_id())
+        return (r[0], r[1]) if r is not None else default
 
     def get_model(self):
         if self.model is None:
@@ -129,16 +156,29 @@ class Engine:
             return True
         if z3.is_false(cond):
             return False
+        cid = cond.get_id()
+        hit = self.decided.get(cid)
+        if hit is not None:
+            return hit[0]
+        d = self._decide(cond)
+        self.decided[cid] = (d, cond)
+        return d
+
+    def _decide(self, cond):
         if self.no_fork:
             raise HarnessError("symbolic branch inside a no-fork region (known-finding predicate or oracle term)")
         k = len(self.trace)
         if k >= MAX_DECISIONS:
             raise Inconclusive("path exceeds %d symbolic decisions" % MAX_DECISIONS)
+        h = _site()
         if k < len(self.prefix):
-            d = self.prefix[k]
+            d, h0 = self.prefix[k]
+            if h0 != h:
+                # replay must reach the same branch conditions in the same order (execution is deterministic)
+                raise Inconclusive("non-deterministic replay: branch %d differs from the recorded one" % k)
             lit = cond if d else z3.Not(cond)
             self.solver.add(lit)
-            self.trace.append(d)
+            self.trace.append((d, h))
             if self.lits is not None:
                 self.lits.append(lit)
             self.model = None
@@ -152,10 +192,10 @@ class Engine:
         d = z3.is_true(m.eval(cond, model_completion=True))
         ok, _ = self._check(z3.Not(cond) if d else cond)
         if ok:
-            self.worklist.append(self.trace + [not d])
+            self.worklist.append(self.trace + [(not d, h)])
         lit = cond if d else z3.Not(cond)
         self.solver.add(lit)
-        self.trace.append(d)
+        self.trace.append((d, h))
         if self.lits is not None:
             self.lits.append(lit)
         # current model still satisfies the added literal
@@ -170,19 +210,48 @@ class Engine:
         return m if ok else None
 
     def merge_call(self, f, args, kw):
-        """Function-level merging for a pure scalar function (DESIGN 2.3):
-        enumerate its feasible sub-paths under the current path condition and
-        return one ite term instead of forking the caller."""
-        saved = (self.prefix, self.trace, self.worklist, self.lits, self.model)
+        """Function-level merging for a pure scalar function (DESIGN 2.3): enumerate its feasible sub-paths
+        under the current path condition and return one ite term instead of forking the caller.
+        Replays of a common prefix reach the same call with the same path condition (execution is
+        deterministic), so the enumeration is cached per (decision trace so far, call number)."""
+        self.nmerge += 1
+        key = (tuple(self.trace), self.nmerge)
+        ent = self.merge_cache.get(key)
+        if ent is None:
+            ent = self._merge_enumerate(f, args, kw)
+            if len(self.merge_cache) > 200000:
+                self.merge_cache.clear()
+            self.merge_cache[key] = ent
+        res, binds, nb, lo, hi = ent
+        for d in binds:
+            self.solver.add(d[0])
+            self.bind_log.append(d)
+            if d[2] is not None:
+                self.iv[d[1].get_id()] = (d[2], d[3], d[1])
+        self.nbind = nb
+        if binds:
+            self.model = None
+        if res is None:
+            raise PathAbort()
+        if isinstance(res, int):
+            return res
+        return SInt(res, lo, hi)
+
+    def _merge_enumerate(self, f, args, kw):
+        saved = (self.prefix, self.trace, self.worklist, self.lits, self.model, self.decided)
         results = []
+        binds = []
         sub = [[]]
         self.in_merge += 1
+        nb0 = len(self.bind_log)
         try:
             while sub:
                 pre = sub.pop()
                 self.solver.push()
                 self.prefix, self.trace, self.worklist, self.lits = pre, [], sub, []
                 self.model = None
+                self.decided = dict(saved[5])
+                nb = len(self.bind_log)
                 try:
                     r = f(*args, **kw)
                     results.append((self.lits, r))
@@ -190,12 +259,17 @@ class Engine:
                     pass
                 finally:
                     self.solver.pop()
+                    # let-bindings made on the sub-path are definitions of fresh variables: keep them
+                    for d in self.bind_log[nb:]:
+                        self.solver.add(d[0])
         finally:
             self.in_merge -= 1
-            self.prefix, self.trace, self.worklist, self.lits, self.model = saved
+            self.prefix, self.trace, self.worklist, self.lits, self.model, self.decided = saved
             self.model = None
+        binds = self.bind_log[nb0:]
+        del self.bind_log[nb0:]
         if not results:
-            raise PathAbort()
+            return (None, binds, self.nbind, 0, 0)
 
         def tz(r):
             if isinstance(r, SInt):
@@ -209,9 +283,15 @@ class Engine:
         for lits, r in reversed(results[:-1]):
             res = z3.If(z3.And(lits) if lits else z3.BoolVal(True), tz(r), res)
         res = z3.simplify(res)
+        lo = min(_iv(r)[0] for _, r in results)
+        hi = max(_iv(r)[1] for _, r in results)
         if z3.is_bv_value(res):
-            return res.as_signed_long()
-        return SInt(self.bind(res), 1 << 33)
+            return (res.as_signed_long(), binds, self.nbind, lo, hi)
+        nbefore = len(self.bind_log)
+        v = self.bind(res, lo, hi)
+        binds = binds + self.bind_log[nbefore:]
+        del self.bind_log[nbefore:]
+        return (v, binds, self.nbind, lo, hi)
 
     def assume(self, cond, label="assume"):
         """Constrain the path; an infeasible remainder is cut (counted)."""
@@ -221,7 +301,7 @@ class Engine:
                 return
             if z3.is_false(c):
                 self.assume_counts[label] = self.assume_counts.get(label, 0) + 1
-                raise PathAbort()
+                raise PathAbort("assume")
             self.solver.add(c)
             if self.lits is not None:
                 self.lits.append(c)
@@ -231,12 +311,23 @@ class Engine:
                 ok, m = self._check()
                 if not ok:
                     self.assume_counts[label] = self.assume_counts.get(label, 0) + 1
-                    raise PathAbort()
+                    raise PathAbort("assume")
                 self.model = m
             return
         if not cond:
             self.assume_counts[label] = self.assume_counts.get(label, 0) + 1
-            raise PathAbort()
+            raise PathAbort("assume")
+
+
+def _site():
+    """source location (outside sx) of the branch being decided: replay-determinism guard"""
+    f = sys._getframe(2)
+    while f is not None:
+        fn = f.f_code.co_filename
+        if "/sx/" not in fn:
+            return hash((fn, f.f_lineno)) & 0xFFFFFFFF
+        f = f.f_back
+    return 0
 
 
 E = Engine()
@@ -351,21 +442,36 @@ def any_of(conds):
     return mk_bool(z3.Or(zs))
 
 
-def _mag_of(o):
+def _iv(o):
+    """static interval (lo, hi) of an int-like operand"""
     if isinstance(o, SInt):
-        return o.mag
-    return abs(int(o)) + 1
+        return o.lo, o.hi
+    if isinstance(o, SBool):
+        return 0, 1
+    v = int(o)
+    return v, v
+
+
+def _bitbound(v):
+    return (1 << max(int(v).bit_length(), 1)) - 1
 
 
 class SInt:
-    """Python int as a W-bit signed bit-vector; `mag` bounds |value| (overflow guard)."""
-    __slots__ = ("z", "mag")
+    """Python int as a W-bit signed bit-vector.  [lo, hi] is a static over-approximation of the value
+    (independent of the path condition): it guards against wrap-around (values must stay far inside
+    64 bits, else Unsupported) and decides comparisons without the solver when the ranges are disjoint."""
+    __slots__ = ("z", "lo", "hi")
 
-    def __init__(self, z, mag=1 << 32):
-        if mag >= MAG_LIMIT:
+    def __init__(self, z, lo=-(1 << 40), hi=(1 << 40)):
+        if lo <= -MAG_LIMIT or hi >= MAG_LIMIT:
             raise Unsupported("integer magnitude guard exceeded")
         self.z = z
-        self.mag = mag
+        self.lo = lo
+        self.hi = hi
+
+    @property
+    def mag(self):
+        return max(abs(self.lo), abs(self.hi)) + 1
 
     @staticmethod
     def _o(o):
@@ -383,98 +489,174 @@ class SInt:
 
     def __add__(self, o):
         z = self._o(o)
-        return NotImplemented if z is None else SInt(self.z + z, self.mag + _mag_of(o))
+        if z is None:
+            return NotImplemented
+        a, b = _iv(o)
+        return SInt(self.z + z, self.lo + a, self.hi + b)
     __radd__ = __add__
 
     def __sub__(self, o):
         z = self._o(o)
-        return NotImplemented if z is None else SInt(self.z - z, self.mag + _mag_of(o))
+        if z is None:
+            return NotImplemented
+        a, b = _iv(o)
+        return SInt(self.z - z, self.lo - b, self.hi - a)
 
     def __rsub__(self, o):
         z = self._o(o)
-        return NotImplemented if z is None else SInt(z - self.z, self.mag + _mag_of(o))
+        if z is None:
+            return NotImplemented
+        a, b = _iv(o)
+        return SInt(z - self.z, a - self.hi, b - self.lo)
 
     def __neg__(self):
-        return SInt(-self.z, self.mag)
+        return SInt(-self.z, -self.hi, -self.lo)
+
+    def __pos__(self):
+        return self
 
     def __mul__(self, o):
         z = self._o(o)
-        return NotImplemented if z is None else SInt(self.z * z, self.mag * _mag_of(o))
+        if z is None:
+            return NotImplemented
+        a, b = _iv(o)
+        ps = (self.lo * a, self.lo * b, self.hi * a, self.hi * b)
+        return SInt(self.z * z, min(ps), max(ps))
     __rmul__ = __mul__
 
     def __floordiv__(self, o):
         if isinstance(o, int) and o > 0:
-            # python floor division == signed division for non-negative dividends only
-            if not truth(SBool(self.z >= 0)):
+            if self.lo < 0 and not truth(SBool(self.z >= 0)):
                 raise Unsupported("floordiv of negative symbolic int")
-            return SInt(z3.UDiv(self.z, bv(o)), self.mag)
+            return SInt(z3.UDiv(self.z, bv(o)), max(self.lo, 0) // o, max(self.hi, 0) // o)
         raise Unsupported("symbolic divisor")
 
     def __mod__(self, o):
         if isinstance(o, int) and o > 0:
-            if not truth(SBool(self.z >= 0)):
+            if self.lo < 0 and not truth(SBool(self.z >= 0)):
                 raise Unsupported("mod of negative symbolic int")
-            return SInt(z3.URem(self.z, bv(o)), o)
+            return SInt(z3.URem(self.z, bv(o)), 0, o - 1)
         raise Unsupported("symbolic modulus")
 
     def __rshift__(self, o):
         if not isinstance(o, int):
             raise Unsupported("symbolic shift amount")
-        return SInt(self.z >> o, self.mag)  # arithmetic, like Python
+        return SInt(self.z >> o, self.lo >> o, self.hi >> o)  # arithmetic, like Python
 
     def __lshift__(self, o):
         if not isinstance(o, int):
             raise Unsupported("symbolic shift amount")
-        return SInt(self.z << o, self.mag << o)
+        return SInt(self.z << o, self.lo << o, self.hi << o)
 
     def __rlshift__(self, o):
-        # 1 << (sym & 7): shift amount bounded by mag
-        if self.mag > 64:
+        # const << sym (e.g. 1 << (ch & 7)): the shift amount must be statically small and non-negative
+        if self.lo < 0 or self.hi > 40 or not isinstance(o, int) or o < 0:
             raise Unsupported("symbolic shift amount unbounded")
-        return SInt(bv(o) << self.z, abs(o) << self.mag)
+        return SInt(bv(o) << self.z, o << self.lo, o << self.hi)
 
-    def __and__(self, o):
+    def _bitop(self, o, op):
         z = self._o(o)
         if z is None:
             return NotImplemented
-        m = _mag_of(o)
-        mag = min(self.mag, m) if (isinstance(o, int) and o >= 0) else max(self.mag, m)
-        return SInt(self.z & z, mag)
+        a, b = _iv(o)
+        if op == "and":
+            r = self.z & z
+            if self.lo >= 0 and a >= 0:
+                return SInt(r, 0, min(self.hi, b))
+            if self.lo >= 0:
+                return SInt(r, 0, self.hi)
+            if a >= 0:
+                return SInt(r, 0, b)
+        else:
+            r = (self.z | z) if op == "or" else (self.z ^ z)
+            if self.lo >= 0 and a >= 0:
+                return SInt(r, 0, _bitbound(max(self.hi, b)))
+        m = _bitbound(max(abs(self.lo), abs(self.hi), abs(a), abs(b)))
+        return SInt(r, -m - 1, m)
+
+    def __and__(self, o):
+        return self._bitop(o, "and")
     __rand__ = __and__
 
     def __or__(self, o):
-        z = self._o(o)
-        return NotImplemented if z is None else SInt(self.z | z, 2 * max(self.mag, _mag_of(o)))
+        return self._bitop(o, "or")
     __ror__ = __or__
 
     def __xor__(self, o):
-        z = self._o(o)
-        return NotImplemented if z is None else SInt(self.z ^ z, 2 * max(self.mag, _mag_of(o)))
+        return self._bitop(o, "xor")
     __rxor__ = __xor__
 
     def __eq__(self, o):
         z = self._o(o)
-        return NotImplemented if z is None else mk_bool(self.z == z)
+        if z is None:
+            return NotImplemented
+        a, b = _iv(o)
+        if b < self.lo or a > self.hi:
+            E.n_static += 1
+            return False
+        return mk_bool(self.z == z)
 
     def __ne__(self, o):
         z = self._o(o)
-        return NotImplemented if z is None else mk_bool(self.z != z)
+        if z is None:
+            return NotImplemented
+        a, b = _iv(o)
+        if b < self.lo or a > self.hi:
+            E.n_static += 1
+            return True
+        return mk_bool(self.z != z)
 
     def __lt__(self, o):
         z = self._o(o)
-        return NotImplemented if z is None else mk_bool(self.z < z)
+        if z is None:
+            return NotImplemented
+        a, b = _iv(o)
+        if self.hi < a:
+            E.n_static += 1
+            return True
+        if self.lo >= b:
+            E.n_static += 1
+            return False
+        return mk_bool(self.z < z)
 
     def __le__(self, o):
         z = self._o(o)
-        return NotImplemented if z is None else mk_bool(self.z <= z)
+        if z is None:
+            return NotImplemented
+        a, b = _iv(o)
+        if self.hi <= a:
+            E.n_static += 1
+            return True
+        if self.lo > b:
+            E.n_static += 1
+            return False
+        return mk_bool(self.z <= z)
 
     def __gt__(self, o):
         z = self._o(o)
-        return NotImplemented if z is None else mk_bool(self.z > z)
+        if z is None:
+            return NotImplemented
+        a, b = _iv(o)
+        if self.lo > b:
+            E.n_static += 1
+            return True
+        if self.hi <= a:
+            E.n_static += 1
+            return False
+        return mk_bool(self.z > z)
 
     def __ge__(self, o):
         z = self._o(o)
-        return NotImplemented if z is None else mk_bool(self.z >= z)
+        if z is None:
+            return NotImplemented
+        a, b = _iv(o)
+        if self.lo >= b:
+            E.n_static += 1
+            return True
+        if self.hi < a:
+            E.n_static += 1
+            return False
+        return mk_bool(self.z >= z)
 
     def __hash__(self):
         raise Unsupported("hash(SInt)")
@@ -484,6 +666,8 @@ class SInt:
     __int__ = __index__
 
     def __bool__(self):
+        if self.lo > 0 or self.hi < 0:
+            return True
         return E.decide(self.z != bv(0))
 
     def __repr__(self):
@@ -519,6 +703,12 @@ def seq_eq(xs, ys):
             if a != b:
                 return False
         elif a is not b:
+            if isinstance(a, int) or isinstance(b, int):
+                k, t = (a, b) if isinstance(a, int) else (b, a)
+                iv = E.iv.get(t.get_id())
+                if iv is not None and (k < iv[0] or k > iv[1]):
+                    E.n_static += 1
+                    return False
             zs.append(ez(a) == ez(b))
     if not zs:
         return True
@@ -538,6 +728,17 @@ def in_ranges(z, ranges):
     """z3 Bool: code point z lies in one of the inclusive ranges"""
     if not ranges:
         return z3.BoolVal(False)
+    iv = E.iv.get(z.get_id()) if E.active else None
+    if iv is not None:
+        lo, hi = iv[0], iv[1]
+        ranges = [(a, b) for a, b in ranges if b >= lo and a <= hi]
+        if not ranges:
+            E.n_static += 1
+            return z3.BoolVal(False)
+        for a, b in ranges:
+            if a <= lo and hi <= b:
+                E.n_static += 1
+                return z3.BoolVal(True)
     alts = [z == bv(a) if a == b else z3.And(z >= bv(a), z <= bv(b)) for a, b in ranges]
     return alts[0] if len(alts) == 1 else z3.Or(alts)
 
@@ -969,7 +1170,7 @@ class SBytes(SSeq):
     __slots__ = ()
 
     def _wrap(self, x):
-        return x if isinstance(x, int) else SInt(x, 256)
+        return x if isinstance(x, int) else SInt(x, *E.interval(x, (0, 255)))
 
     def __repr__(self):
         return "%s(%s)" % (type(self).__name__, ",".join("%02x" % c if isinstance(c, int) else "?" for c in self.e))
@@ -1155,7 +1356,9 @@ def explore(fn, prefixes=None, max_paths=None, path_timeout=120, on_path=None):
             signal.alarm(path_timeout)
             try:
                 r = fn()
-            except PathAbort:
+            except PathAbort as e:
+                if e.reason != "assume" and not E.in_merge:
+                    E.n_unexpected_aborts += 1
                 continue
             finally:
                 signal.alarm(0)
